@@ -180,6 +180,11 @@ pub enum Op {
     EntryKey(Tgt, &'static str),
     ObjRetainNotA(Tgt),
     ObjAppendFromLive1(Tgt),
+    /// append an object built for the target: it holds every key of the target with a different
+    /// value plus `extra` new keys (extra = 0: same size, 2: strictly larger), or - `Overlap1` -
+    /// only the target's first key
+    ObjAppendOverlapping(Tgt, usize),
+    ObjAppendOverlap1(Tgt),
     ObjClear(Tgt),
     ObjIterMutAssign(Tgt, Leaf),
     // value level
@@ -245,6 +250,11 @@ pub fn ops() -> Vec<Op> {
     v.push(AppendFromLive1(Tgt::Root(0)));
     v.push(AppendFromLive1(Tgt::KeyA(0)));
     v.push(ObjAppendFromLive1(Tgt::Root(0)));
+    for t in [Tgt::Root(0), Tgt::KeyA(0)] {
+        v.push(ObjAppendOverlapping(t, 0));
+        v.push(ObjAppendOverlapping(t, 2));
+        v.push(ObjAppendOverlap1(t));
+    }
     v.push(Take(Tgt::PathA1(0)));
     v.push(CloneLive(Tgt::PathA1(0)));
     v.push(Push(Tgt::PathA1(0), One));
@@ -624,6 +634,45 @@ pub fn apply(op: &Op, live: &mut Vec<Value>, model: &mut Vec<R>) -> Result<(), S
                 Some("other-left-with-0".to_string())
             })
         }
+        Op::ObjAppendOverlapping(t, extra) => on_object!(t, "append(overlapping)", |o| {
+            let keys: Vec<String> = o.iter().map(|(k, _)| k.to_string()).collect();
+            let mut other = sonic_rs::Object::new();
+            for k in &keys {
+                other.insert(k, Value::from(format!("other-{k}").as_str()));
+            }
+            for i in 0..*extra {
+                other.insert(&format!("zz{i}"), Value::from(format!("new-{i}").as_str()));
+            }
+            o.append(&mut other);
+            Some(format!("other-left-with-{}", other.len()))
+        }, |m| {
+            let keys: Vec<String> = m.keys().cloned().collect();
+            for k in keys {
+                m.insert(k.clone(), R::Str(format!("other-{k}")));
+            }
+            for i in 0..*extra {
+                m.insert(format!("zz{i}"), R::Str(format!("new-{i}")));
+            }
+            Some("other-left-with-0".to_string())
+        }),
+        Op::ObjAppendOverlap1(t) => on_object!(t, "append(one common key)", |o| {
+            let first: Option<String> = {
+                let mut ks: Vec<String> = o.iter().map(|(k, _)| k.to_string()).collect();
+                ks.sort();
+                ks.into_iter().next()
+            };
+            let mut other = sonic_rs::Object::new();
+            if let Some(k) = &first {
+                other.insert(k, Value::from("other"));
+            }
+            o.append(&mut other);
+            Some(format!("other-left-with-{}", other.len()))
+        }, |m| {
+            if let Some(k) = m.keys().next().cloned() {
+                m.insert(k, R::Str("other".to_string()));
+            }
+            Some("other-left-with-0".to_string())
+        }),
         Op::ObjClear(t) => on_object!(t, "clear", |o| {
             o.clear();
             ok()
@@ -937,7 +986,7 @@ pub fn families(tier: Tier, _variant: &str) -> Vec<Family> {
                 let kind = d.split('(').next().unwrap_or("");
                 let on0 = d.contains("Root(0)") || d.contains("KeyA(0)");
                 (on0 && matches!(kind, "Push" | "Pop" | "SwapRemove" | "SplitOff" | "RetainNumbers" | "ObjInsert" | "ObjRemove" | "EntryOrInsert" | "EntryRemove" | "IndexMutKey" | "Take" | "CloneLive" | "ObjIterMutAssign" | "Drain01"))
-                    || matches!(kind, "DropLive" | "AssignCloneInto" | "AppendFromLive1" | "ObjAppendFromLive1")
+                    || matches!(kind, "DropLive" | "AssignCloneInto" | "AppendFromLive1" | "ObjAppendFromLive1" | "ObjAppendOverlapping" | "ObjAppendOverlap1")
                     || d.contains("PathA1")
             })
             .collect();
